@@ -1543,6 +1543,13 @@ func runChainCase(w *cl.World, E uint64, cs caseSpec, base string, emit func(*li
 		if st.probe {
 			cb.probeTemplate(n, st, &fails)
 		}
+		// a node also answers validator queries about its tip (API, proposer, vote handling) between
+		// blocks; they must not change which checkpoint's reward table the next block is held to
+		if cb.r.Chance(40) {
+			tip := n.Chain.BestBlockHeader().Hash()
+			n.Chain.AllValidators(&tip)
+			n.Chain.GetValidator(&tip, n.Chain.BestBlockHeader().Timestamp)
+		}
 		orphan, perr := n.Process(st.block)
 		cls := 0
 		if perr != nil || orphan {
